@@ -686,7 +686,8 @@ func c18Binding(e *Env, env *c18Env) {
 		firstBad := len(h.pieces)
 		if rep[6] != "-" {
 			firstBad, _ = strconv.Atoi(rep[6])
-			e.R.H("binding_guard", "outside binding_partial (a read hits a stale generation)")
+			e.R.H("binding_guard", "outside binding_partial (a read hits a stale generation) — impossible since bindGuard_always")
+			e.R.Mismatch(text, "-", rep[6], "the model's binding guard fails although bindGuard_always proves it for every history")
 		} else {
 			e.R.H("binding_guard", "inside binding_partial")
 		}
@@ -737,7 +738,7 @@ func c18Binding(e *Env, env *c18Env) {
 			}
 		}
 		if mismatch != "" {
-			e.R.Mismatch(text, mismatch, strings.Join(rep[1:3], " "), "real session vs Lean generations model (function binding time, bound_at_declaring_run)")
+			e.R.Mismatch(text, mismatch, strings.Join(rep[1:3], " "), "real session vs Lean generations model (function binding time, bound_at_every_run)")
 		}
 		// the model's Spec against the real whole-program evaluation
 		if len(real) == len(h.pieces) {
@@ -758,14 +759,12 @@ func c18Binding(e *Env, env *c18Env) {
 			}
 		}
 		if specDiff != "" {
-			finding := ""
+			// C18-function-globals-snapshot was repaired (reloadCode forgets the loaded functions of the main code): a
+			// function of an earlier piece that misses the globals of a later piece is an unlisted violation again
 			if !specInside {
-				specDiff += " [outside binding_partial: a read or the compared slot is in a stale generation]"
-				if mismatch == "" {
-					finding = "C18-function-globals-snapshot"
-				}
+				specDiff += " [a read or the compared slot is in a stale generation]"
 			}
-			e.R.Spec(text, specDiff, finding)
+			e.R.Spec(text, specDiff, "")
 			e.R.H("binding_spec", "violated")
 		} else {
 			e.R.H("binding_spec", "holds")
